@@ -319,3 +319,88 @@ func runPauseProposer(p PauseParams, ops hx.Counter) []Case {
 	log = append(log, "4 more blocks dt=5")
 	return []Case{histCase("proposer-deactivated", h, log, p)}
 }
+
+// ------------------------------------------------------------------ recovery-token branch of AllocateTokensToValidator (BeginBlock)
+
+type RRParams struct {
+	Seed     uint64   `json:"chain_seed"`
+	Snap     int64    `json:"genesis_snap_period"`
+	Holders  []string `json:"rr_token_sent_to_each_registered_holder"` // amounts of the 10^13 supply sent to a2, a3, a4 (who register)
+	KeepSelf bool     `json:"issuer_registers_as_holder_too"`
+	NBlocks  int      `json:"blocks"`
+	Fees     []string `json:"fee_cycle"`
+	Burn     bool     `json:"a_holder_burns_tokens"`
+	Claim    int      `json:"claim_rr_rewards_every_n_blocks"`
+}
+
+func drawRR(r *hx.Rng, seed uint64, adversarial bool) RRParams {
+	p := RRParams{Seed: seed, Snap: pickI(r, 1, 1, 3, 1000), NBlocks: 20 + r.Intn(30), KeepSelf: r.Chance(40), Burn: r.Chance(40), Claim: r.Intn(6),
+		Fees: []string{"101ukex", "103ukex", "11ubtc", "1007xeth", "999ukex", "105ukex,11ubtc", "107ukex"}}
+	switch r.Intn(5) {
+	case 0:
+		p.Holders = []string{"10000000000000"} // one holder with the whole supply
+	case 1:
+		p.Holders = []string{"5000000000000", "5000000000000"} // two halves
+	case 2:
+		p.Holders = []string{"3333333333333", "3333333333333", "3333333333334"}
+	case 3:
+		p.Holders = []string{"4999999999999", "5000000000000"}
+	default:
+		p.Holders = []string{"1000000", "2500000000000"}
+	}
+	return p
+}
+
+// Validator 0's owner issues recovery tokens; holders register; validator 0 proposes: its block reward goes to
+// the recovery module and is split among the holders (IncreaseRecoveryTokenUnderlying / calcPortion).
+func runRR(p RRParams, ops hx.Counter) []Case {
+	h := NewH(abci.Config{Accounts: 6, Validators: 2, Seed: p.Seed,
+		Genesis: func(gs simapp.GenesisState, _ func(interface{}) []byte) {
+			dg := distributortypes.DefaultGenesis()
+			dg.SnapPeriod = p.Snap
+			gs[distributortypes.ModuleName] = simapp.MakeEncodingConfig().Marshaler.MustMarshalJSON(dg)
+		}}, ops)
+	c := h.C
+	log := []string{fmt.Sprintf("chain accounts=6 validators=2 seed=%d genesis distributor snap_period=%d", p.Seed, p.Snap)}
+	v := c.Validators[0]
+	owner := c.Accounts[v.Owner].Addr
+	h.Block(BlockReq{Dt: 5}, func() {
+		res := h.Tx("register-identity-records", v.Owner, govtypes.NewMsgRegisterIdentityRecords(owner, []govtypes.IdentityInfoEntry{{Key: "moniker", Info: "valzero"}}))
+		log = append(log, fmt.Sprintf("a%d (owner of validator 0) registers moniker valzero code=%d", v.Owner, res.Code))
+		res = h.Tx("issue-recovery-tokens", v.Owner, recoverytypes.NewMsgIssueRecoveryTokens(owner.String()))
+		log = append(log, fmt.Sprintf("it issues recovery tokens (10^13 rr/valzero) code=%d %s", res.Code, short(res.Log)))
+	}, nil)
+	h.Block(BlockReq{Dt: 5, Proposer: 1}, func() {
+		for i, amt := range p.Holders {
+			n, _ := sdk.NewIntFromString(amt)
+			res := h.Tx("bank-send", v.Owner, banktypes.NewMsgSend(owner, c.Accounts[2+i].Addr, sdk.NewCoins(sdk.NewCoin("rr/valzero", n))))
+			log = append(log, fmt.Sprintf("the issuer sends %srr/valzero to a%d code=%d", amt, 2+i, res.Code))
+			res = h.Tx("register-rr-holder", 2+i, recoverytypes.NewMsgRegisterRRTokenHolder(c.Accounts[2+i].Addr))
+			log = append(log, fmt.Sprintf("a%d registers as RR-token holder code=%d", 2+i, res.Code))
+		}
+		if p.KeepSelf {
+			res := h.Tx("register-rr-holder", v.Owner, recoverytypes.NewMsgRegisterRRTokenHolder(owner))
+			log = append(log, fmt.Sprintf("the issuer registers as holder of the rest code=%d", res.Code))
+		}
+	}, nil)
+	for b := 0; b < p.NBlocks && !h.Halted; b++ {
+		h.Block(BlockReq{Dt: 5, Proposer: b % 3 % 2}, func() { // validator 0 proposes two blocks out of three
+			fee, _ := sdk.ParseCoinsNormalized(p.Fees[b%len(p.Fees)])
+			h.TxFee("bank-send", 5, fee, banktypes.NewMsgSend(c.Accounts[5].Addr, c.Accounts[1].Addr, ukex(1)))
+			if p.Claim > 0 && b%p.Claim == p.Claim-1 {
+				h.Tx("claim-rr-rewards", 2, recoverytypes.NewMsgClaimRRHolderRewards(c.Accounts[2].Addr))
+			}
+			if p.Burn && b == p.NBlocks/2 {
+				res := h.Tx("burn-recovery-tokens", 2, recoverytypes.NewMsgBurnRecoveryTokens(c.Accounts[2].Addr, sdk.NewInt64Coin("rr/valzero", 500000)))
+				log = append(log, fmt.Sprintf("a2 burns 500000rr/valzero code=%d", res.Code))
+			}
+		}, nil)
+	}
+	log = append(log, fmt.Sprintf("%d blocks dt=5 (validator 0 proposes two out of three), each with a bank send by a5 paying a fee from the cycle %v", p.NBlocks, p.Fees))
+	cs := histCase("recovery-rewards", h, log, p)
+	if len(h.Blocks) > 12 {
+		cs.JSON["history"] = append(append([]Block{}, h.Blocks[:3]...), h.Blocks[len(h.Blocks)-6:]...)
+		cs.JSON["history_note"] = fmt.Sprintf("%d blocks, first 3 and last 6 shown", len(h.Blocks))
+	}
+	return []Case{cs}
+}
